@@ -21,7 +21,7 @@ PROP = {
         "checks": {"corr": "check_case", "registry": "mon_registry", "optin": "mon_optin",
                    "accept": "mon_accept", "stats": "mon_stats"},
         "kinds": {"corr": "corr", "registry": "monitor", "optin": "monitor", "accept": "monitor", "stats": "monitor"},
-        "n_quick": 160,
+        "n_quick": 170,
         "n_thorough": 2000,
     }],
     "rule": ("each case = one history of 12..90 operations on a real ExocoreApp (5 genesis operators with self stakes 101/100/150/120/0 USD "
@@ -32,7 +32,7 @@ PROP = {
              "protobuf round trip; wrong stage, nil/other signature, response with another id / another sum / not JSON, lowercase task address, "
              "from != operator, bad bech32, nil info, explicitly encoded empty byte fields) and challenges (wrong task hash / response hash / "
              "operator) attempted at EVERY epoch offset from task creation to past the challenge period; the epoch clock is advanced through the "
-             "real x/epochs BeginBlocker with all five subscribers. 15 directed cases first (2 with three AVSs of different stake whose tasks end in the same epoch, 2 empty-signature regression scenarios, 1 signer-not-opted-in regression scenario, 6 deregister-timing boundaries, "
+             "real x/epochs BeginBlocker with all five subscribers. 25 directed cases first (10 minimum-self-delegation boundary scenarios with oracle price decimals 0..18 and exact base-unit stakes: self value exactly at / 1e-18 below / a fraction of 1e-18 below / just above the minimum, 2 with three AVSs of different stake whose tasks end in the same epoch, 2 empty-signature regression scenarios, 1 signer-not-opted-in regression scenario, 6 deregister-timing boundaries, "
              "4 window sweeps with all-zero / mixed periods and colliding task addresses on register and update); 4 of 5 generated cases follow "
              "the life cycle (register, keys, opt-in, epoch, tasks, then targeted phase one/two/challenge per epoch), 1 of 5 is an unstructured "
              "stream. distinct = distinct sha1 of the whole case; non-trivial = at least two accepted operations of two different kinds"),
@@ -50,7 +50,7 @@ PROP = {
         "modelled, not verified (hand-written Gallina transcription, tied by differential execution): x/avs/keeper/{keeper,avs,task,"
         "impl_epoch_hook,msg_server}.go, x/avs/types/types.go (Difference), precompiles/avs/{tx,types}.go (argument and owner checks), "
         "x/operator/keeper/opt.go (OptIn/OptOut requirements), x/operator/keeper/operator.go (GetOptedInOperatorListByAVS, IsOptedIn)",
-        "inputs of the model taken from the real libraries/keepers by the harness, not modelled: BLS signature verification and public-key "
+        "the operator's pools / shares / oracle price / decimals are read from the stores right before every opt-in; mon_optin recomputes the self value from them in exact rational arithmetic and check_case ties the reported value to the truncating closed form", "inputs of the model taken from the real libraries/keepers by the harness, not modelled: BLS signature verification and public-key "
         "parsing (prysm blst), bech32 validity, the operator's self USD value (GetOrCalculateOperatorUSDValues), per-operator and per-AVS USD "
         "values written by the operator module's epoch hook, the list of ended epochs of each BeginBlocker (C15 covers the epoch clock)",
         "hash functions are opaque and assumed collision free: a stored TaskResponseHash is compared as 'keccak of the stored response', a "
